@@ -194,6 +194,9 @@ def c10_streams(tier, rng):
         Stream("single-step", "adapt", gens.filter_single_step(ml), adapt_nontriv, True,
                "filter/filter_map x {unbatched,batched}: source [0..n-1] n<=%d x all 2^n pass/fail assignments x every applicable diff with passing (6) and failing (7) new items, Append/Reset with every pass/fail pattern up to 3 items" % ml,
                adapt_hist, oracles=orc),
+        Stream("two-step", "adapt", gens.filter_two_step(2 if q else 3), adapt_nontriv, True,
+               "filter/filter_map x {unbatched,batched}: source [0..n-1] n<=%d x all pass/fail assignments x every PAIR of applicable diffs (drained after each): defects where one diff corrupts filtered_indices/original_len and the next exposes it" % (2 if q else 3),
+               adapt_hist, oracles=orc),
         Stream("random", "adapt", gens.rand_adapt(rng, ("filter", "filter_map"), n), adapt_nontriv, False,
                "%d seeded random histories of 3..30 events, random 8-bit pass mask" % n, adapt_hist, oracles=orc),
     ]
@@ -207,6 +210,10 @@ def c11_streams(tier, rng):
     return [
         Stream("single-step", "adapt", gens.sort_single_step(ml), adapt_nontriv, True,
                "sort/sort_by/sort_by_key x {unbatched,batched}: sources of n<=%d items over keys {0,1,2} (all tie patterns; item = key*10+position) x every applicable diff with new keys 0,1,2" % ml,
+               adapt_hist, oracles=orc),
+        Stream("two-step", "adapt", gens.sort_two_step(2, bats=("u",) if q else ("u", "b"), kinds=("sort",) if q else ("sort", "sort_by", "sort_by_key")),
+               adapt_nontriv, True,
+               "sort%s: sources of n<=2 items over keys {0,1,2} x every PAIR of applicable diffs (drained after each; no Truncate)" % ("" if q else "/sort_by/sort_by_key x {unbatched,batched}"),
                adapt_hist, oracles=orc),
         Stream("random", "adapt", gens.rand_adapt(rng, ("sort", "sort_by", "sort_by_key"), n), adapt_nontriv, False,
                "%d seeded random histories of 3..30 events; items key*10+uid, all distinct" % n, adapt_hist, oracles=orc),
